@@ -1,11 +1,11 @@
 SPECIFICATION Spec
 CONSTANTS
-  N = 2
-  Cls = "exact"
-  Gates <- GatesE2q
+  N = 3
+  Cls = "perm-ss"
+  Gates <- GatesP3
   NewParams <- NewParamsC
-  Queries <- QueriesE2q
-  MaxDepth = 3
+  Queries <- QueriesP3
+  MaxDepth = 4
   Record = FALSE
   Deviations <- NoDev
   ConeIgnoresSwap = FALSE
@@ -13,8 +13,7 @@ VIEW view
 INVARIANT RegIsRun
 INVARIANT NormOne
 INVARIANT QueriesAgree
-INVARIANT NoStaleRead
 INVARIANT RejectClean
-INVARIANT RecordInStep
-INVARIANT StoreCurrent
+INVARIANT PermIsPerm
+INVARIANT PermSound
 CHECK_DEADLOCK FALSE
